@@ -45,7 +45,7 @@ Proof.
 Qed.
 
 Lemma pinv_env s l e' : PInv s -> pok pre s l -> estep (penv s) l e' ->
-  PInv (mkp e' (pfd s) (ppcs s) (rb s) (pdel s)).
+  PInv (mkp e' (pfd s) (ppcs s) (rb s) (pdel s) (patt s)).
 Proof.
   intros I Ok H. pose proof I as [V O P N G Q M E].
   pose proof (estep_past _ _ _ H) as Pa. destruct (estep_present _ _ _ H) as [Pb Pn].
